@@ -5,26 +5,29 @@ go 1.26.8
 require (
 	github.com/andres-erbsen/clock v0.0.0-20160526145045-9e14626cd129
 	github.com/anishathalye/porcupine v1.3.0
+	github.com/c2h5oh/datasize v0.0.0-20171227191756-4eba002a5eae
+	github.com/cenkalti/backoff v2.2.1+incompatible
 	github.com/docker/distribution v2.7.1+incompatible
+	github.com/go-chi/chi v4.0.2+incompatible
 	github.com/jmoiron/sqlx v0.0.0-20190319043955-cdf62fdf55f6
 	github.com/mattn/go-sqlite3 v1.14.0
 	github.com/pressly/goose v2.6.0+incompatible
 	github.com/uber-go/tally v3.3.11+incompatible
 	github.com/uber/kraken v0.0.0
+	github.com/willf/bitset v0.0.0-20190228212526-18bd95f470f9
 	go.uber.org/atomic v1.5.0
 	go.uber.org/zap v1.10.0
 )
 
 require (
 	github.com/aws/aws-sdk-go v1.21.4 // indirect
-	github.com/c2h5oh/datasize v0.0.0-20171227191756-4eba002a5eae // indirect
-	github.com/cenkalti/backoff v2.2.1+incompatible // indirect
 	github.com/cespare/xxhash/v2 v2.3.0 // indirect
 	github.com/davecgh/go-spew v1.1.1 // indirect
 	github.com/felixge/httpsnoop v1.0.4 // indirect
-	github.com/go-chi/chi v4.0.2+incompatible // indirect
 	github.com/go-logr/logr v1.4.3 // indirect
 	github.com/go-logr/stdr v1.2.2 // indirect
+	github.com/golang/protobuf v1.5.4 // indirect
+	github.com/gomodule/redigo v1.8.9 // indirect
 	github.com/jackpal/bencode-go v0.0.0-20180813173944-227668e840fa // indirect
 	github.com/pkg/errors v0.9.1 // indirect
 	github.com/pmezard/go-difflib v1.0.0 // indirect
@@ -37,6 +40,8 @@ require (
 	go.opentelemetry.io/otel/trace v1.41.0 // indirect
 	go.uber.org/multierr v1.4.0 // indirect
 	golang.org/x/time v0.0.0-20200416051211-89c76fbcd5d1 // indirect
+	google.golang.org/protobuf v1.36.10 // indirect
+	gopkg.in/yaml.v2 v2.3.0 // indirect
 	gopkg.in/yaml.v3 v3.0.1 // indirect
 )
 
